@@ -507,4 +507,82 @@ pub fn run(args: &Args, rep: &mut Report) {
         }
     }
     rep.add("driver_requests", drv.requests);
+    if args.flag("partial-modes") && args.get("replay").is_none() {
+        multi_dispatch_check(seed, cases.max(20), rep);
+    }
+}
+
+/// `MultiDispatcher` (batch.rs): a batch whose controller plans `n` inner dispatches. Counting
+/// oracle only (C04: systems inside the batch — thread-local ones included — run exactly the
+/// planned number of times per outer dispatch); the library's controller emits no events, so
+/// these runs are not fed to the acceptor.
+pub fn multi_dispatch_check(seed: u64, cases: u64, rep: &mut Report) {
+    struct Plan(usize);
+    impl<'a> MultiDispatchController<'a> for Plan {
+        type SystemData = ();
+        fn plan(&mut self, _: ()) -> usize {
+            self.0
+        }
+    }
+    let pool = make_pool(3);
+    for c in 0..cases {
+        let mut rng = Rng::new(seed ^ 0x3a17, c);
+        let n = rng.below(5) as usize;
+        let k_inner = 1 + rng.below(4) as usize;
+        let k_tl = rng.below(3) as usize;
+        let k_outer = rng.below(3) as usize;
+        let total = k_inner + k_tl + k_outer + 1;
+        let shared = Shared::new(total);
+        let mk = |tag: usize, w: Vec<Res>| HSys { acc: Acc { tag, decl_r: vec![], decl_w: w, shared: shared.clone(), path: vec![], borrow: false }, time: rt(1 + (tag % 5) as u8) };
+        let mut inner: Builder = DispatcherBuilder::new();
+        let mut tag = 0;
+        for i in 0..k_inner {
+            inner.add(mk(tag, vec![((i % 3) as u8, 0)]), &format!("i{}", tag), &[]);
+            tag += 1;
+        }
+        let tl_first = tag;
+        for _ in 0..k_tl {
+            inner.add_thread_local(mk(tag, vec![]));
+            tag += 1;
+        }
+        let outer_first = tag;
+        let mut b = new_builder(&pool);
+        for _ in 0..k_outer {
+            b.add(mk(tag, vec![(4, 0)]), &format!("o{}", tag), &[]);
+            tag += 1;
+        }
+        b.add_batch(MultiDispatcher::new(Plan(n)), inner, "multi", &[]);
+        let mut d = b.build();
+        let w = full_world();
+        let dispatches = 1 + rng.below(3);
+        let mut ok = true;
+        for _ in 0..dispatches {
+            if catch_unwind(AssertUnwindSafe(|| d.dispatch(&w))).is_err() {
+                ok = false;
+            }
+        }
+        shared.take_log();
+        let line = format!("multi n={} inner={} tl={} outer={} dispatches={}", n, k_inner, k_tl, k_outer, dispatches);
+        rep.count("multi_dispatcher_cases");
+        if !ok {
+            rep.violate("C04", "impl", if k_tl > 0 { "kf1" } else { "" }, format!("{}: dispatch panicked", line), vec![line.clone()]);
+            continue;
+        }
+        for t in 0..outer_first {
+            let runs = shared.behav[t].runs.load(SeqCst);
+            let want = dispatches * n as u64;
+            if runs != want {
+                let kind = if t >= tl_first { "thread-local system" } else { "system" };
+                rep.violate("C04", "impl", "", format!("{}: {} {} inside the multi-dispatch batch ran {} times, planned {}", line, kind, t, runs, want), vec![line.clone()]);
+                break;
+            }
+        }
+        for t in outer_first..tag {
+            let runs = shared.behav[t].runs.load(SeqCst);
+            if runs != dispatches {
+                rep.violate("C04", "impl", "", format!("{}: outer system {} ran {} times in {} dispatches", line, t, runs, dispatches), vec![line.clone()]);
+                break;
+            }
+        }
+    }
 }
